@@ -16,8 +16,8 @@
   (3) F37 IN THE MODEL.  `jump_rounds_quadratic`: on the family `(01 54 01)ⁿ` (n empty-bodied loops in a row, 3·n bytes of
       bytecode) the jump pass makes exactly n·(n+3)/2 rounds; `no_linear_bound`: hence no bound `c·(code bytes)` holds.
       The same family is measured on the real code (same counts).
-  What is NOT linear in the real code and the model alike: several function records may name the SAME name table or the SAME
-  bytecode, several constant records the SAME string — work is (records)·(region), see the findings in design.d/C10Lscr.md.
+  Until the repairs F103/F104 several function records could name the SAME name table or the SAME bytecode, several constant
+  records the SAME string (work = records · region); now running totals are checked against the file length (`handlers_linear`).
 -/
 import Drx.Lscr.Steps
 import DrxProofs.LscrSteps
@@ -46,8 +46,8 @@ theorem func_names_loop_linear (d : Bytes) (declared : Nat) (idx : Int) : 42 * f
 
 /-- the three name tables of ONE function record (locals, parameters, handler globals): `len + 1` rounds each at most,
     whatever counts and offsets the record declares -/
-theorem frb_tables_linear (ctx : Ctx) (d : Bytes) (idx : Int) : tablesSteps ctx d idx ≤ 3 * d.length + 3 :=
-  tablesSteps_linear ctx d idx
+theorem frb_tables_linear (ctx : Ctx) (d : Bytes) (idx : Int) (declared : Nat) : tablesSteps ctx d idx declared ≤ 3 * d.length + 3 :=
+  tablesSteps_linear ctx d idx declared
 
 /-- whole chunk, ANY bytes, ANY name table: all container loops and the function-record loop are linear in the length -/
 theorem container_linear (codec : Codec) (d : Bytes) (names : List Str) :
@@ -56,6 +56,13 @@ theorem container_linear (codec : Codec) (d : Bytes) (names : List Str) :
     (lscrStepsWith codec d names).grb ≤ 3 * d.length + 3 ∧
     42 * (lscrStepsWith codec d names).fnames ≤ 2 * d.length + 82 ∧
     42 * (lscrStepsWith codec d names).frb ≤ 2 * d.length + 42 := lscr_container_linear codec d names
+
+/-- **all handlers together, ANY bytes** (repairs F103: `parse_frb` keeps a running total of the bytecode and name-table bytes
+    the records declare and raises when it exceeds the file): two bytes of data per round of a name-table loop and one byte per
+    instruction decoded, over ALL function records — overlapping or repeated regions included -/
+theorem handlers_linear (codec : Codec) (d : Bytes) (names : List Str) :
+    2 * (lscrStepsWith codec d names).tables + (lscrStepsWith codec d names).opcodes ≤ d.length :=
+  lscr_handlers_linear codec d names
 
 /-! ## the opcode loop -/
 
